@@ -126,6 +126,7 @@ theorem InvL.step {s : State} (hL : InvL s) (op : Op) : InvL (step s op) := by
   | lockrec cid b => exact hL.same rfl rfl
   | setlimit cid l => exact hL.same rfl rfl
   | cfgcancel b => exact hL.same rfl rfl
+  | panicRecover => exact hL
 
 theorem InvL.init (n limit nfwd : Nat) : InvL (init n limit nfwd) := by
   constructor <;> simp [CGV.BatchMux.init]
